@@ -1,11 +1,9 @@
 import Gaftools.Props.C18
 import Gaftools.Props.C18b
-import Gaftools.Props.TieA2
 #print axioms Gaftools.C18.skip_isolated
 #print axioms Gaftools.C18.runOrder_total
 #print axioms Gaftools.C18.written_names
 #print axioms Gaftools.C18.runOrder_ranges
-#print axioms Gaftools.TieA.finishScaffold_gen
 #print axioms Gaftools.C18.ok_linear
 #print axioms Gaftools.C18.nonlinear_skipped
 #print axioms Gaftools.C18.decompose_noCrash
